@@ -68,8 +68,11 @@ pub fn draw_job(rng: &mut Rng, c: &Corpus) -> Job {
             let path = format!("{}/{}", corpus::PROJ, root);
             if let Some(crate::disk::Node::File(t)) = disk.nodes.get(&path).cloned() {
                 let m = mutate::draw(rng, &t, &c.texts);
-                disk.add_file(&root, mutate::apply(&t, &m));
-                name = format!("generated-mutant:{}:{:?}", root, m);
+                let candidate = mutate::apply(&t, &m);
+                if !mutate::magnitude_risky(&t, &candidate) {
+                    disk.add_file(&root, candidate);
+                    name = format!("generated-mutant:{}:{:?}", root, m);
+                }
             }
         }
         let mut spec = Spec::simple(&root);
@@ -119,9 +122,16 @@ pub fn draw_job(rng: &mut Rng, c: &Corpus) -> Job {
         let n = *rng.pick(&[1, 1, 1, 2, 2, 3]);
         let mut descr = Vec::new();
         for _ in 0..n {
-            let m = mutate::draw(rng, &text, &c.texts);
-            text = mutate::apply(&text, &m);
-            descr.push(format!("{:?}", m));
+            for _attempt in 0..6 {
+                let m = mutate::draw(rng, &text, &c.texts);
+                let candidate = mutate::apply(&text, &m);
+                if mutate::magnitude_risky(&text, &candidate) {
+                    continue;
+                }
+                text = candidate;
+                descr.push(format!("{:?}", m));
+                break;
+            }
         }
         job.disk.add_file(&target, text);
         job.name = format!("mutant:{}/{}:{}", img.label, target, descr.join("+"));
